@@ -756,32 +756,158 @@ theorem emitToks_nil_iff (fmt : Bytes → Bytes) : ∀ (vals : Vals) (any : Bool
       simp only [emitToks, hd, ↓reduceIte, hasDeck, List.any_cons, hb, Bool.false_or]
       exact ih any (dc + 1)
 
+theorem writeValsM_append (fmt : Bytes → Bytes) (split ro : Bool) : ∀ (a b : Vals) (dc rc : Nat),
+    writeValsM fmt split ro dc rc (a ++ b) =
+      ((writeValsM fmt split ro dc rc a).1 ++
+          (writeValsM fmt split ro (writeValsM fmt split ro dc rc a).2.1 (writeValsM fmt split ro dc rc a).2.2 b).1,
+        (writeValsM fmt split ro (writeValsM fmt split ro dc rc a).2.1 (writeValsM fmt split ro dc rc a).2.2 b).2) := by
+  intro a
+  induction a with
+  | nil => intro b dc rc; simp [writeValsM]
+  | cons p a ih =>
+    intro b dc rc
+    obtain ⟨v, st⟩ := p
+    by_cases hd : st = .deck
+    · subst hd
+      simp only [List.cons_append, writeValsM, ↓reduceIte, ih, List.append_assoc]
+    · simp only [List.cons_append, writeValsM, hd, ↓reduceIte, ih]
+
+/-- only the last item of the record may hold several values (true of every record
+`ParserRecord::parse` returns: an item of size ALL is the last item of its record). -/
+def MultiOnlyLast : List Vals → Prop
+  | [] => True
+  | [_] => True
+  | it :: rest => it.length ≤ 1 ∧ MultiOnlyLast rest
+
+instance : (r : List Vals) → Decidable (MultiOnlyLast r)
+  | [] => isTrue trivial
+  | [_] => isTrue trivial
+  | it :: it2 :: rest =>
+    have : Decidable (MultiOnlyLast (it2 :: rest)) := instDecidableMultiOnlyLast (it2 :: rest)
+    inferInstanceAs (Decidable (it.length ≤ 1 ∧ MultiOnlyLast (it2 :: rest)))
+
+theorem lastMulti_cons_cons (it it2 : Vals) (rest : List Vals) : lastMulti (it :: it2 :: rest) = lastMulti (it2 :: rest) := by
+  simp [lastMulti]
+
+/-- without the per-item flush the items are written like their concatenation. -/
+theorem writeItemsM_noflush (fmt : Bytes → Bytes) (split ro : Bool) : ∀ (r : List Vals) (dc rc : Nat),
+    writeItemsM fmt split ro false dc rc r = writeValsM fmt split ro dc rc r.flatten := by
+  intro r
+  induction r with
+  | nil => intro dc rc; simp [writeItemsM, writeValsM]
+  | cons it rest ih =>
+    intro dc rc
+    simp only [writeItemsM, Bool.false_eq_true, false_and, ↓reduceIte, List.append_nil, ih, List.flatten_cons,
+      writeValsM_append]
+
+theorem writeItemsM_cons_single (fmt : Bytes → Bytes) (split ro fl : Bool) (it : Vals) (rest : List Vals) (dc rc : Nat)
+    (h : ¬ (it.length > 1)) :
+    writeItemsM fmt split ro fl dc rc (it :: rest) =
+      ((writeValsM fmt split ro dc rc it).1 ++
+          (writeItemsM fmt split ro fl (writeValsM fmt split ro dc rc it).2.1 (writeValsM fmt split ro dc rc it).2.2 rest).1,
+        (writeItemsM fmt split ro fl (writeValsM fmt split ro dc rc it).2.1 (writeValsM fmt split ro dc rc it).2.2 rest).2) := by
+  rw [writeItemsM]
+  simp only [h, and_false, ↓reduceIte, List.append_nil]
+
+/-- with the per-item flush (14c7867b0), for a record whose last item only may hold several
+values: the values are written like their concatenation, followed by `flush_defaults` iff the
+last item holds several values. -/
+theorem writeItemsM_flush (fmt : Bytes → Bytes) (split ro : Bool) : ∀ (r : List Vals) (dc rc : Nat), MultiOnlyLast r →
+    writeItemsM fmt split ro true dc rc r =
+      (if lastMulti r then
+        ((writeValsM fmt split ro dc rc r.flatten).1 ++
+            (flushDefaultsM split ro (writeValsM fmt split ro dc rc r.flatten).2.1 (writeValsM fmt split ro dc rc r.flatten).2.2).1,
+          (flushDefaultsM split ro (writeValsM fmt split ro dc rc r.flatten).2.1 (writeValsM fmt split ro dc rc r.flatten).2.2).2)
+      else writeValsM fmt split ro dc rc r.flatten) := by
+  intro r
+  induction r with
+  | nil => intro dc rc _; simp [writeItemsM, writeValsM, lastMulti]
+  | cons it rest ih =>
+    intro dc rc h
+    cases rest with
+    | nil =>
+      simp only [writeItemsM, true_and, List.append_nil, List.flatten_cons, List.flatten_nil, lastMulti,
+        List.getLast?_singleton]
+      by_cases hl : it.length > 1
+      · simp [hl]
+      · simp [hl]
+    | cons it2 rest2 =>
+      obtain ⟨h1, h2⟩ := h
+      have hl : ¬ (it.length > 1) := by omega
+      rw [lastMulti_cons_cons, writeItemsM_cons_single fmt split ro true it (it2 :: rest2) dc rc hl,
+        ih (writeValsM fmt split ro dc rc it).2.1 (writeValsM fmt split ro dc rc it).2.2 h2]
+      simp only [List.flatten_cons, writeValsM_append fmt split ro it]
+      by_cases hm : lastMulti (it2 :: rest2) = true
+      · simp [hm, List.append_assoc]
+      · simp [hm]
+
 /-- **The literal mirror of `DeckRecord::write` / `DeckOutput` writes exactly the bytes of
-the two-stage model** (`layout ∘ emitToks`) the theorems are about, for both shapes of
-`end_record`. -/
-theorem writeRecordM_eq (fmt : Bytes → Bytes) (flush split : Bool) (r : List Vals) :
-    (writeRecordM fmt flush split r).1 = writeRecord fmt flush split r := by
-  unfold writeRecordM writeRecord writtenRecordText
-  rw [writeValsM_eq fmt split r.flatten 0 0 false]
-  simp only
-  cases flush with
-  | false => simp
-  | true =>
-    simp only [↓reduceIte]
-    rw [emitToks_flush fmt r.flatten false 0]
-    simp only [Bool.false_or]
-    by_cases hdk : hasDeck r.flatten = true
-    · have hne : emitToks fmt false false 0 r.flatten ≠ [] := by
-        intro h; rw [(emitToks_nil_iff fmt r.flatten false 0).mp h] at hdk; cases hdk
-      have hpos := layoutEnd_pos split _ 0 hne
-      by_cases hp : pendM 0 r.flatten = 0
-      · simp [hp, hdk]
-      · have hp' : 0 < pendM 0 r.flatten := by omega
-        simp only [hp', hpos, and_self, ↓reduceIte, hdk, hp, ne_eq, not_false_eq_true, layout_append,
-          writeSep_record, layout, List.append_nil, List.append_assoc]
-        simp
-    · have hdk' : hasDeck r.flatten = false := by simpa using hdk
-      have he := (emitToks_nil_iff fmt r.flatten false 0).mpr hdk'
-      simp [he, hdk', layoutEnd]
+the two-stage model** (`layout ∘ emitToks`) the theorems are about, for the three shapes of
+the code: the original (`flush = false`), 452487d0e (`flush = true`), and 14c7867b0 — pending
+defaults written behind an item holding several values — where `flush` is `lastMulti r`
+(hypothesis: only the last item of the record may hold several values). -/
+theorem writeRecordM_eq (fmt : Bytes → Bytes) (shape : Nat) (split : Bool) (r : List Vals)
+    (h : shape ≤ 1 ∨ MultiOnlyLast r) :
+    (writeRecordM fmt shape split r).1 = writeRecord fmt (flushOf shape r) split r := by
+  -- the record flush of shape 1 and the item flush of shape 2 behind the last item are the same text
+  have key : ∀ (fl : Bool),
+      ((writeValsM fmt split true 0 0 r.flatten).1 ++
+        (if fl then (flushDefaultsM split true (writeValsM fmt split true 0 0 r.flatten).2.1
+            (writeValsM fmt split true 0 0 r.flatten).2.2).1 else [])) ++ [32, 47, 10] =
+      writeRecord fmt fl split r := by
+    intro fl
+    unfold writeRecord writtenRecordText flushDefaultsM
+    rw [writeValsM_eq fmt split r.flatten 0 0 false]
+    simp only
+    cases fl with
+    | false => simp
+    | true =>
+      simp only [↓reduceIte]
+      rw [emitToks_flush fmt r.flatten false 0]
+      simp only [Bool.false_or]
+      by_cases hdk : hasDeck r.flatten = true
+      · have hne : emitToks fmt false false 0 r.flatten ≠ [] := by
+          intro h; rw [(emitToks_nil_iff fmt r.flatten false 0).mp h] at hdk; cases hdk
+        have hpos := layoutEnd_pos split _ 0 hne
+        by_cases hp : pendM 0 r.flatten = 0
+        · simp [hp, hdk]
+        · have hp' : 0 < pendM 0 r.flatten := by omega
+          simp only [hp', hpos, and_self, ↓reduceIte, hdk, hp, ne_eq, not_false_eq_true, layout_append,
+            writeSep_record, layout, List.append_nil, List.append_assoc]
+          simp
+      · have hdk' : hasDeck r.flatten = false := by simpa using hdk
+        have he := (emitToks_nil_iff fmt r.flatten false 0).mpr hdk'
+        simp [he, hdk', layoutEnd]
+  by_cases h0 : shape = 0
+  · subst h0
+    have := key false
+    simp only [Bool.false_eq_true, ↓reduceIte, List.append_nil] at this
+    simp only [writeRecordM, flushOf, ↓reduceIte, show decide (2 ≤ 0) = false from rfl, writeItemsM_noflush]
+    exact this
+  · by_cases h1 : shape = 1
+    · subst h1
+      have := key true
+      simp only [↓reduceIte] at this
+      simp only [writeRecordM, flushOf, show ¬ ((1 : Nat) = 0) from by decide, ↓reduceIte,
+        show decide (2 ≤ 1) = false from rfl, writeItemsM_noflush]
+      rw [← this]
+      unfold flushDefaultsM
+      by_cases hc : 0 < (writeValsM fmt split true 0 0 r.flatten).2.1 ∧ 0 < (writeValsM fmt split true 0 0 r.flatten).2.2
+      · simp [hc, List.append_assoc]
+      · simp [hc]
+    · have hml : MultiOnlyLast r := by
+        rcases h with h | h
+        · omega
+        · exact h
+      have hs : decide (2 ≤ shape) = true := by
+        have : 2 ≤ shape := by omega
+        simp [this]
+      simp only [writeRecordM, flushOf, h0, h1, ↓reduceIte, hs]
+      rw [writeItemsM_flush fmt split true r 0 0 hml]
+      have := key (lastMulti r)
+      rw [← this]
+      by_cases hm : lastMulti r = true
+      · simp [hm]
+      · simp [hm]
 
 end OpmVerif.DeckWrite
